@@ -25,6 +25,10 @@ pub enum Piece {
     Use(String, Option<Vec<Option<Vec<Piece>>>>),
     /// line continuation between pieces
     Cont,
+    /// `define <name> <body> as the last piece of a body (a define-generating macro); name is a Tok or a Formal
+    DefStmt(Box<Piece>, String),
+    /// `undef <name> as the last piece of a body
+    UndefStmt(Box<Piece>),
 }
 
 #[derive(Clone, Debug)]
@@ -124,6 +128,8 @@ fn render_piece(p: &Piece, formals: &[(String, Option<String>)]) -> String {
             s
         }
         Piece::Cont => "\\\n ".to_string(),
+        Piece::DefStmt(n, b) => format!("`define {} {}", render_piece(n, formals), b),
+        Piece::UndefStmt(n) => format!("`undef {}", render_piece(n, formals)),
     }
 }
 
@@ -770,7 +776,7 @@ impl<'a> Eval<'a> {
             Piece::Paste(v) => v.iter().map(|x| self.piece_text(x, vals)).collect::<Vec<_>>().concat(),
             Piece::Strfy(v) => format!("\"{}\"", v.iter().map(|x| self.piece_text(x, vals)).collect::<Vec<_>>().join(" ")),
             Piece::Str(s) => format!("\"{}\"", s),
-            Piece::Use(..) | Piece::Cont => String::new(),
+            Piece::Use(..) | Piece::Cont | Piece::DefStmt(..) | Piece::UndefStmt(..) => String::new(),
         }
     }
 
@@ -813,6 +819,23 @@ impl<'a> Eval<'a> {
             }
             Piece::Str(_) => o.push(self.piece_text(p, vals)),
             Piece::Cont => {}
+            Piece::DefStmt(n, b) => {
+                // the expansion is re-preprocessed: the definition is kept in the output and adopted into the table
+                let name = self.piece_text(n, vals).trim().to_string();
+                o.push("`define".into());
+                o.push(name.clone());
+                lex_into(o, b);
+                if !is_pre(&name) {
+                    let m = MacroDef { name: name.clone(), formals: None, body: Some(vec![Piece::Tok(b.clone())]) };
+                    self.table.insert(name, TableEntry::Def(m, usize::MAX / 4, 0));
+                }
+            }
+            Piece::UndefStmt(n) => {
+                let name = self.piece_text(n, vals).trim().to_string();
+                o.push("`undef".into());
+                o.push(name.clone());
+                self.table.remove(&name);
+            }
             Piece::Use(n, args) => {
                 let a: Option<Vec<Option<String>>> = args.as_ref().map(|v| {
                     v.iter()
@@ -900,6 +923,8 @@ pub struct GenOpts {
     pub undefineall: bool,
     pub strings_comments: bool,
     pub sv_cov: bool,
+    /// macro bodies may end in a `define / `undef (define-generating macros)
+    pub define_in_body: bool,
 }
 
 impl Default for GenOpts {
@@ -917,6 +942,7 @@ impl Default for GenOpts {
             undefineall: true,
             strings_comments: true,
             sv_cov: false,
+            define_in_body: false,
         }
     }
 }
@@ -933,6 +959,8 @@ pub struct Gen<'r> {
     /// an `undefineall was emitted earlier in program order: SV_COV_* names are no longer tested
     /// (each nested run re-installs them; the statement sets these constants aside)
     pub undefall_emitted: bool,
+    /// names of define-generating macros: defined once, never redefined (the generator must know their live shape)
+    pub frozen: std::collections::HashSet<String>,
 }
 
 const KEPT: &[&str] = &[
@@ -952,7 +980,7 @@ const KEPT: &[&str] = &[
 
 impl<'r> Gen<'r> {
     pub fn new(r: &'r mut Rng, o: GenOpts) -> Gen<'r> {
-        Gen { r, uid: 0, o, known: Vec::new(), cond_names: vec!["A".into(), "B".into(), "C".into(), "D".into()], misuse_budget: 0, undefall_emitted: false }
+        Gen { r, uid: 0, o, known: Vec::new(), cond_names: vec!["A".into(), "B".into(), "C".into(), "D".into()], misuse_budget: 0, undefall_emitted: false, frozen: Default::default() }
     }
     pub fn fresh(&mut self, p: &str) -> String {
         self.uid += 1;
@@ -1016,9 +1044,15 @@ impl<'r> Gen<'r> {
             return Piece::Tok(self.fresh("b"));
         }
         let m = self.r.pick(&cands).clone();
+        let name_formal = def_name_formal(&m);
         let args = m.formals.as_ref().map(|fs| {
             fs.iter()
-                .map(|_| {
+                .enumerate()
+                .map(|(ix, _)| {
+                    if name_formal == Some(ix) {
+                        // the name of a generated definition is always a plain fresh identifier
+                        return Some(vec![Piece::Tok(self.fresh("G"))]);
+                    }
                     if nf > 0 && self.r.chance(2, 5) {
                         Some(vec![Piece::Formal(self.r.below(nf))])
                     } else {
@@ -1031,12 +1065,15 @@ impl<'r> Gen<'r> {
     }
 
     pub fn macro_def(&mut self) -> MacroDef {
-        let name = if self.r.chance(1, 6) && !self.known.is_empty() {
+        let mut name = if self.r.chance(1, 6) && !self.known.is_empty() {
             // redefinition
             self.r.pick(&self.known).name.clone()
         } else {
             self.fresh("M")
         };
+        if self.frozen.contains(&name) {
+            name = self.fresh("M");
+        }
         let nf = if self.o.function_macros { *self.r.pick(&[0usize, 0, 1, 2, 3]) } else { 0 };
         let mut formals = Vec::new();
         for _ in 0..nf {
@@ -1051,6 +1088,7 @@ impl<'r> Gen<'r> {
             };
             formals.push((self.fresh("p"), d));
         }
+        let mut generating = false;
         let body = if self.r.chance(1, 10) {
             None
         } else {
@@ -1085,7 +1123,29 @@ impl<'r> Gen<'r> {
             if b.is_empty() {
                 b.push(Piece::Tok(self.fresh("b")));
             }
+            if self.o.define_in_body && self.r.chance(1, 8) {
+                // the rest of the line belongs to the generated directive, so it is the last piece; the piece before
+                // it is a plain token (no literal / usage directly in front of a directive: K1 steering)
+                if !matches!(b.last(), Some(Piece::Tok(_))) {
+                    b.push(Piece::Tok(self.fresh("b")));
+                }
+                let name: Piece = if nf > 0 && self.r.chance(1, 2) { Piece::Formal(self.r.below(nf)) } else { Piece::Tok(self.fresh("G")) };
+                if self.r.chance(3, 4) {
+                    b.push(Piece::DefStmt(Box::new(name), self.fresh("g")));
+                } else {
+                    b.push(Piece::UndefStmt(Box::new(name)));
+                }
+                generating = true;
+            }
             Some(b)
+        };
+        let name = if generating {
+            // defined exactly once under a name of its own
+            let n = self.fresh("MK");
+            self.frozen.insert(n.clone());
+            n
+        } else {
+            name
         };
         let m = MacroDef { name, formals: if nf > 0 { Some(formals) } else { None }, body };
         self.known.retain(|x| x.name != m.name);
@@ -1121,14 +1181,25 @@ impl<'r> Gen<'r> {
                 } else {
                     let mut v: Vec<Option<String>> = Vec::new();
                     let mut n = fs.len();
-                    if self.o.misuse && self.misuse_budget > 0 && self.r.chance(1, 10) && n > 0 {
+                    if def_name_formal(&m).is_some() {
+                        // all arguments given: the one that names the generated definition must be an identifier
+                    } else if self.o.misuse && self.misuse_budget > 0 && self.r.chance(1, 10) && n > 0 {
                         self.misuse_budget -= 1;
                         n -= 1; // missing trailing argument: default or DefineArgNotFound
                     } else if fs.last().map(|f| f.1.is_some()).unwrap_or(false) && self.r.chance(1, 4) {
                         n -= 1; // trailing argument omitted, default exists
                     }
+                    let name_formal = def_name_formal(&m);
                     for (i, (_f, d)) in fs.iter().enumerate().take(n) {
-                        if d.is_some() && self.r.chance(1, 3) {
+                        if name_formal == Some(i) {
+                            // this argument becomes the name of a generated definition: a fresh identifier
+                            let g = self.fresh("G");
+                            if let Some(Piece::DefStmt(_, b)) = m.body.as_ref().and_then(|b| b.last()) {
+                                let gm = MacroDef { name: g.clone(), formals: None, body: Some(vec![Piece::Tok(b.clone())]) };
+                                self.known.push(gm);
+                            }
+                            v.push(Some(g));
+                        } else if d.is_some() && self.r.chance(1, 3) {
                             v.push(None);
                         } else {
                             // a usage inside an actual is only generated when the formal stands alone in the body:
@@ -1202,6 +1273,9 @@ impl<'r> Gen<'r> {
                     }
                     5 => {
                         let n = if self.r.chance(1, 2) || self.known.is_empty() { self.r.pick(&self.cond_names).clone() } else { self.r.pick(&self.known).name.clone() };
+                        if self.frozen.contains(&n) {
+                            continue;
+                        }
                         items.push(Item::Undef(n));
                     }
                     6 if self.o.undefineall && self.r.chance(1, 3) => {
@@ -1229,6 +1303,17 @@ impl<'r> Gen<'r> {
             }
         }
         items
+    }
+}
+
+/// index of the formal that names the definition generated by the macro's last piece
+fn def_name_formal(m: &MacroDef) -> Option<usize> {
+    match m.body.as_ref().and_then(|b| b.last()) {
+        Some(Piece::DefStmt(n, _)) | Some(Piece::UndefStmt(n)) => match **n {
+            Piece::Formal(i) => Some(i),
+            _ => None,
+        },
+        _ => None,
     }
 }
 
